@@ -153,8 +153,18 @@ def _work_rand(args):
             for _ in range(6):
                 sc = 10 ** rng.uniform(-3, 3)
                 p0 = rng.uniform(-1, 1, 3) * sc
-                kind = rng.choice(['generic', 'generic', 'collinear_int', 'collinear_axis', 'collinear_tilt', 'middle', 'decimal'])
-                if kind == 'generic':
+                kind = rng.choice(['generic', 'generic', 'collinear_int', 'collinear_axis', 'collinear_tilt', 'middle', 'decimal', 'far_small'])
+                if kind == 'far_small':
+                    # a small triple (extent 2^-9 .. 2^-5 nm) hundreds of nm from the origin, on a dyadic grid so that the
+                    # differences are exact: three clearly distinct points, however close compared with their coordinates
+                    p0 = rng.integers(-1024, 1025, 3).astype(float)
+                    g = 2.0 ** -int(rng.integers(5, 10))
+                    while True:
+                        a, b = rng.integers(-8, 9, 3).astype(float), rng.integers(-8, 9, 3).astype(float)
+                        if np.linalg.norm(np.cross(a, b)) > 1e-3 * max(np.linalg.norm(a) * np.linalg.norm(b), 1e-300) and a.any() and b.any():
+                            break
+                    p1, p2 = p0 + b * g, p0 + a * g
+                elif kind == 'generic':
                     while True:
                         p1 = p0 + rng.normal(size=3) * sc * 0.3
                         p2 = p0 + rng.normal(size=3) * sc * 0.3
